@@ -469,6 +469,6 @@ PINNED = [
             "kind": "ints", "nan_rows": [5], "xnew": [0.5, 9.0], "path": "direct"}),
 ]
 SUBS = {
-    "bs": Sub(judge=judge_bs, gen=gen_bs, quick=1500, thorough=200_000, min_decided=400),
-    "cubic": Sub(judge=judge_cubic, gen=gen_cubic, quick=700, thorough=100_000, min_decided=150),
+    "bs": Sub(judge=judge_bs, gen=gen_bs, quick=6000, thorough=200_000, min_decided=400),
+    "cubic": Sub(judge=judge_cubic, gen=gen_cubic, quick=3000, thorough=100_000, min_decided=150),
 }
